@@ -103,6 +103,8 @@ def obligations(tier):
         obs.append(Ob(f"init_agent[{'+'.join(names)},{kind}]", ob_init_agent(names, "base", kind), t))
         if len(names) == 1 or th:
             obs.append(Ob(f"solve[{'+'.join(names)},{kind}]", ob_solve(names, kind), t))
+    for names in (("D3",), ("DM2",), ("B2",), ("C", "D3"), ("DM1", "B1"), ("C",)):
+        obs.append(Ob(f"init_agent[{'+'.join(names)},int]", ob_init_agent(names, "base", "int"), 300))
     obs.append(Ob("init_agent_extra_coords[C+D3]", ob_init_agent(("C", "D3"), "base", "any", extra=2), 300))
     obs.append(Ob("init_agent_max[C+D3]", ob_init_agent(("C", "D3"), "base", "any", dname="max"), 300))
     for cname in init_agent_overrides():
